@@ -825,9 +825,9 @@ impl CertificateParams {
 								oid::BASIC_CONSTRAINTS,
 								true,
 								|writer| {
-									writer.write_sequence(|writer| {
-										writer.next().write_bool(false); // cA flag
-									});
+									// cA is `BOOLEAN DEFAULT FALSE`: DER omits a value equal
+									// to its default, so CA:FALSE is the empty SEQUENCE.
+									writer.write_sequence(|_writer| {});
 								},
 							);
 						},
